@@ -58,6 +58,14 @@ def replay(r):
             return fimo(motifs, Xt, bin_size=bin_size, eps=eps, threshold=thr, reverse_complement=rc)
         except Exception as e:
             return e
+    if r.get("fwd"):
+        try:
+            cf_ = fimo(motifs, X, bin_size=bin_size, eps=eps, threshold=thr, reverse_complement=False, return_counts=True)
+            rf_ = fimo(motifs, X, bin_size=bin_size, eps=eps, threshold=thr, reverse_complement=False)
+        except Exception as e:
+            return True, "fimo(reverse_complement=False, return_counts=True) raised %s: %s" % (type(e).__name__, e)
+        if [int(v) for v in cf_] != [len(d) for d in rf_]:
+            return True, "forward-only counts %s differ from the forward-only hit tables %s" % (list(cf_), [len(d) for d in rf_])
     for rc in (True, False):
         res = scan(X, rc)
         if isinstance(res, Exception):
@@ -204,6 +212,27 @@ def worker(cfg):
                 cnt = fimo.fimo(motifs, X, reverse_complement=True, return_counts=True, **kw) if views in ("all", "views") else None
                 Xrc = X.flip(dims=(-1,))[:, [3, 2, 1, 0]]
                 res_rc = fimo.fimo(motifs, Xrc, reverse_complement=True, **kw) if views in ("all", "rc") else None
+                if views == "fwd":
+                    # forward strand only: hits, counts and dim=1 must describe the '+' subset of the two-strand scan
+                    resf = fimo.fimo(motifs, X, reverse_complement=False, **kw)
+                    try:
+                        cntf = fimo.fimo(motifs, X, reverse_complement=False, return_counts=True, **kw)
+                    except Exception as e:
+                        if isinstance(e, core.Inconclusive):
+                            raise
+                        m = ctx.model() if ctx.check() == z3.sat else None
+                        add("fimo:return-counts-forward-only-raises", "fimo(return_counts=True, reverse_complement=False) raised %s: %s" % (type(e).__name__, e), dict(rp(m), fwd=True))
+                        return "raised"
+                    for q in range(len(pw_list)):
+                        plus = sorted((int(b), int(s_)) for b, s_, st in zip(res[q].data["sequence_name"], res[q].data["start"], res[q].data["strand"]) if st == "+")
+                        gotf = sorted((int(b), int(s_)) for b, s_ in zip(resf[q].data["sequence_name"], resf[q].data["start"]))
+                        ctx.stats.obligations += 1
+                        if plus == gotf and all(st == "+" for st in resf[q].data["strand"]) and bool(cntf.a[q] == len(gotf)):
+                            ctx.stats.discharged += 1
+                        else:
+                            m = ctx.model() if ctx.check() == z3.sat else None
+                            add("fimo:forward-only-inconsistent", "forward-only scan / counts differ from the '+' hits of the two-strand scan", dict(rp(m), fwd=True))
+                            return "returned"
             except Exception as e:
                 if isinstance(e, core.Inconclusive):
                     raise
@@ -293,6 +322,7 @@ def configs(tier):
     pw2 = [[0.25, 0.9, 0.1], [0.25, 0.03, 0.2], [0.25, 0.03, 0.3], [0.25, 0.04, 0.4]]
     cf.append(dict(kind="glue", B=1, L=3, pwms=[pw1], threshold=0.3, views="rc"))
     cf.append(dict(kind="glue", B=2, L=2, pwms=[pw1], threshold=0.3, views="views"))
+    cf.append(dict(kind="glue", B=1, L=3, pwms=[pw1], threshold=0.3, views="fwd"))
     if not q:
         cf.append(dict(kind="glue", B=1, L=4, pwms=[pw1, pw2], threshold=0.3, views="rc"))
         cf.append(dict(kind="glue", B=2, L=3, pwms=[pw2], threshold=0.4, views="all"))
